@@ -226,6 +226,13 @@ def run(ck):
         rec.append({"id": len(rec) + 1, "src": src3, "inputs": [], "mods": [], "pend": -1, "depth": depth})
         srcv = "n := 0\nf := func(...a) { n += 1; if n > %d { return 0 }; return f(a...) + 0 }\nr := f()\n" % depth
         rec.append({"id": len(rec) + 1, "src": srcv, "inputs": [], "mods": [], "pend": -1, "depth": depth})
+    # the other limit errors raised deep inside recursion (allocation budget, string length): the error handed back is still the limit
+    # error for the host (errors.Is), whatever the depth of the trace attached to it
+    for depth in (5, 31, 32, 33, 40, 200, 900):
+        rec.append({"id": len(rec) + 1, "src": "f := func(n) { if n == 0 { return [1, 2, 3] }; return f(n - 1) + [n] }\nr := f(%d)\n" % depth, "inputs": [], "mods": [],
+                    "pend": -2, "depth": depth, "max_allocs": 2, "want": "alloc_limit"})
+        rec.append({"id": len(rec) + 1, "src": "s := \"0123456789012345678901234567890123456789\"\nf := func(n) { if n == 0 { return s + s + s }; return f(n - 1) + \"x\" }\nr := f(%d)\n" % depth,
+                    "inputs": [], "mods": [], "pend": -2, "depth": depth, "max_str": 100, "want": "string_limit"})
     rr = vlib.run_cases(ck, "deep", rec, nproc=6)
     for c in rec:
         o = rr[c["id"]]
@@ -234,6 +241,17 @@ def run(ck):
             ck.violation("recursion-host-down", "deep recursion did not return an error value\n" + c["src"], {"case": c, "real": o})
             continue
         out = o["outcome"]
+        bad_sent = [k for k, v in (out.get("sentinels") or {}).items() if v["text"] != v["is"]]
+        if bad_sent:
+            ck.violation("limit-error-unrecognisable:" + bad_sent[0], "the error text names %s but errors.Is does not recognise it (or vice versa), recursion depth %d: %s\n%s" % (
+                bad_sent[0], c["depth"], str(out.get("msg"))[:160], c["src"]), {"case": c, "real": o})
+            continue
+        if c["pend"] == -2:
+            if out.get("kind") != c["want"]:
+                ck.violation("limit-in-recursion:" + c["want"], "expected the %s error at recursion depth %d, got %s\n%s" % (c["want"], c["depth"], json.dumps(out)[:200], c["src"]), {"case": c, "real": o})
+            else:
+                ck.traces += 1
+            continue
         if c["pend"] == -1:
             # frames needed: main + depth + 1 calls
             want_ok = c["depth"] + 2 <= 1024
